@@ -252,6 +252,24 @@ def prepare_target(spec, yaw):
 
 
 # ----------------------------------------------------------------------------- the call
+KMEANS = []      # patch centres computed by create_patch_centers in this process (observation only)
+
+
+def record_kmeans_centres():
+    """patch_num: the centres come out of treecorr's k-means (randomly initialised, not seeded).  They are an
+    intermediate INPUT of the pipeline the harness cannot predict, so the call is observed: same arguments, same
+    result, the result is written down."""
+    import yaw.catalog.catalog as cc
+    orig = cc.create_patch_centers
+
+    def create_patch_centers(reader, patch_num, probe_size):
+        centers = orig(reader, patch_num, probe_size)
+        KMEANS.append([[float(a).hex(), float(b).hex()] for a, b in zip(centers.ra, centers.dec)])
+        return centers
+
+    cc.create_patch_centers = create_patch_centers
+
+
 def install_injection(spec):
     kind = spec["fault"]["kind"]
     if kind == "worker":
@@ -394,6 +412,8 @@ def main():
     logging.getLogger("yaw").setLevel(logging.CRITICAL)
     prepare_target(spec, yaw)
     install_injection(spec)
+    if spec["patch"] == "num":
+        record_kmeans_centres()
     print("READY", flush=True)
     t0 = time.time()
     res = {}
@@ -407,6 +427,8 @@ def main():
         res["elapsed"] = time.time() - t0
         res["exc_type"] = type(e).__name__
         res["exc_msg"] = str(e)[:300]
+    if KMEANS:
+        res["kmeans_centres"] = KMEANS[-1]
     tmp = out_path + ".tmp"
     with open(tmp, "w") as fh:
         json.dump(res, fh)
